@@ -29,7 +29,7 @@ from asl.loader import AnalysisError, Unit, norm
 from .common import make_resolver
 
 LEVEL = {
-    "decided": "C13: (R13.1) _AsyncGeneratorContextManager.__aexit__ abstractly evaluated over all 33 feasible "
+    "decided": "C13: (R13.1) _AsyncGeneratorContextManager.__aexit__ abstractly evaluated over all 42 feasible "
                "(block outcome class x generator reaction class) cells equals the specification table written from the "
                "statement (same object propagates / suppressed / RuntimeError for 'did not stop'; Stop*/RuntimeError "
                "never misattributed; GeneratorExit closes and propagates); (R13.2) exactly one generator interaction "
@@ -68,17 +68,25 @@ BLOCKS = ["none", "GeneratorExit", "StopIteration", "StopAsyncIteration", "Runti
 #   ('new', cls, cause)  raises a new object of class cls (cause: 'V' = caused by the passed object)
 SPEC: Dict[str, Dict[Tuple, str]] = {
     "none": {("stop",): "F", ("yield",): "RT", ("new", "OtherExc", None): "PROP"},
-    "GeneratorExit": {("none",): "F", ("new", "RuntimeError", None): "PROP", ("new", "OtherExc", None): "PROP"},
+    "GeneratorExit": {("none",): "F", ("new", "RuntimeError", None): "PROP", ("new", "OtherExc", None): "PROP",
+                      ("new", "OtherExc", "V"): "PROP"},
     "StopIteration": {("stop",): "T", ("yield",): "RT", ("new", "RuntimeError", "V"): "F",
-                      ("new", "RuntimeError", None): "PROP", ("new", "OtherExc", None): "PROP"},
+                      ("new", "RuntimeError", None): "PROP", ("new", "OtherExc", None): "PROP",
+                      ("new", "OtherExc", "V"): "PROP"},
     "StopAsyncIteration": {("stop",): "T", ("yield",): "RT", ("new", "RuntimeError", "V"): "F",
-                           ("new", "RuntimeError", None): "PROP", ("new", "OtherExc", None): "PROP"},
+                           ("new", "RuntimeError", None): "PROP", ("new", "OtherExc", None): "PROP",
+                           ("new", "OtherExc", "V"): "PROP"},
+    # (cause "V": the generator's handler raises explicitly chained, ``raise New(...) from err`` — only the
+    #  RuntimeError that CPython itself chains to a thrown-in Stop*Iteration means "our exception came back")
     "RuntimeError": {("stop",): "T", ("yield",): "RT", ("same",): "F",
-                     ("new", "RuntimeError", None): "PROP", ("new", "OtherExc", None): "PROP"},
+                     ("new", "RuntimeError", None): "PROP", ("new", "OtherExc", None): "PROP",
+                     ("new", "RuntimeError", "V"): "PROP", ("new", "OtherExc", "V"): "PROP"},
     "OtherExc": {("stop",): "T", ("yield",): "RT", ("same",): "F", ("new", "OtherExc", None): "PROP",
-                 ("new", "OtherExc2", None): "PROP", ("new", "RuntimeError", None): "PROP"},
+                 ("new", "OtherExc2", None): "PROP", ("new", "RuntimeError", None): "PROP",
+                 ("new", "OtherExc2", "V"): "PROP", ("new", "RuntimeError", "V"): "PROP"},
     "OtherBase": {("stop",): "T", ("yield",): "RT", ("same",): "F", ("new", "OtherBase", None): "PROP",
-                  ("new", "OtherExc", None): "PROP", ("new", "RuntimeError", None): "PROP"},
+                  ("new", "OtherExc", None): "PROP", ("new", "RuntimeError", None): "PROP",
+                  ("new", "OtherExc", "V"): "PROP", ("new", "RuntimeError", "V"): "PROP"},
 }
 INFEASIBLE = [
     "Stop*/('same',): an async generator cannot re-raise the StopIteration/StopAsyncIteration thrown into it; "
@@ -309,7 +317,13 @@ def run(ctx) -> None:
                           witness=f"evaluated interactions: {trace}")
     ctx.tables["evaluated decision table"] = table
     r13_3(ctx)
-    ctx.floor("cells", 33)
+    # like asynccontextmanager, the manager can decorate a function: every call then enters a manager of
+    # its own (a fresh generator), so overlapping or repeated calls behave like separate `async with` blocks
+    from . import c15
+    from .common import Relabel
+    ctx.rule("R13.4", "decorator use: every call gets a new manager built from the original (func, args, kwds), hence a fresh generator (R15.2, shared)")
+    c15.r15_2(Relabel(ctx, "R13.4"))
+    ctx.floor("cells", 42)
     ctx.floor("enter_cells", 3)
     # informational: the always-true identity test (differs from the stdlib only in an infeasible cell)
     for n in ast.walk(u.node):
